@@ -133,6 +133,14 @@ def est_via_zip(ctx, facts, fid):
         return False
     c = counts[0]
     f = nf.strip(c["recv"])
+    # `.inspect(|..| trace!(..))` passes every element through unchanged; accepted when its closure only logs
+    while f["k"] == "MethodCall" and f["name"] == "inspect" and len(f["args"]) == 1 and f["args"][0]["k"] == "Closure":
+        b_ = f["args"][0]["body"]
+        inner_ = [x for x in hirq.walk(b_) if x is not b_ and x["k"] not in ("Block",)]
+        # (the macro's arguments keep their call-site spans: pure reads of the closure's parameters)
+        if not all(hirq.in_log_macro(x) or x["k"] in ("Path", "Field", "AddrOf", "Lit", "Tup") or (x["k"] == "Unary" and x["op"] == "*") for x in inner_):
+            return False
+        f = nf.strip(f["recv"])
     if f["k"] != "MethodCall" or f["name"] != "filter" or len(f["args"]) != 1 or f["args"][0]["k"] != "Closure":
         return False
     z = nf.strip(f["recv"])
